@@ -62,7 +62,7 @@ def run_demo():
         placed.append(dst)
     if not cmd:
         cmd = GO + " test -vet=off -count=1 ./" + copies[0][1] + "/"
-    cmd = cmd.replace("<repo>", wt)
+    cmd = re.sub(r"\s+#.*$", "", cmd).replace("<repo>", wt)
     rc2, out2 = sh("bash -c '%s > /tmp/vs-out.txt 2>&1; echo $?'" % cmd.replace("'", "'\\''"), cwd=wt, timeout=1800)
     code = int(out2.strip().splitlines()[-1])
     for p in placed:
